@@ -6,7 +6,9 @@ package main
 //	ccf rt <value sx>                => ok:<same|diff>:<hex>:<sx of ccf.Decode> | encerr | decerr:<hex> | panic
 //	ccf perm <value sx> <value sx'>  => same:<hex> | diff:<hex>:<hex'> | err      (deterministic mode, sx' a permutation of sx)
 //	ccf strict <default|det> <sx>    => ok:<sx of strict decode of the encoding in that mode> | err | encerr
-//	ccf mutb <hex>                   => ok | err | panic | hang                    (byte / CBOR-head level mutations)
+//	ccf mutb <hex>                   => ok:<sx> | err | panic | hang               (byte / CBOR-head level mutations)
+//	ccf hand <sorted|unsorted|dup> <hex> => d:<ok:<sx>|err>;s:<ok:<sx>|err>        (hand-built dictionary encodings:
+//	                                    default decoder ; strict decoder)
 
 import (
 	"bytes"
@@ -126,6 +128,9 @@ func genCCF(c *hx.Ctx) {
 			c.Emit("ccf", "strict", "default", sx)
 			c.Emit("ccf", "strict", "det", sx)
 		}
+		if r.Chance(25) {
+			genHand(c, r)
+		}
 		if r.Chance(50) {
 			if enc, err, p := encodeGuardCCF(func() ([]byte, error) { return ccf.Encode(v) }); err == nil && !p {
 				for k, n := 0, 1+r.Intn(3); k < n; k++ {
@@ -134,6 +139,149 @@ func genCCF(c *hx.Ctx) {
 			}
 		}
 	}
+}
+
+// safeValueSx prints a decoded value; a value the printer cannot handle is not a decoder crash.
+func safeValueSx(v cadence.Value) (s string) {
+	defer func() {
+		if r := recover(); r != nil {
+			s = "(unprintable)"
+		}
+	}()
+	return cval.ValueSx(v)
+}
+
+// ---- hand-built encodings of dictionaries (shortest-form CBOR) ----
+
+func cborHead(major byte, n uint64) []byte {
+	m := major << 5
+	switch {
+	case n < 24:
+		return []byte{m | byte(n)}
+	case n < 1<<8:
+		return []byte{m | 24, byte(n)}
+	case n < 1<<16:
+		return []byte{m | 25, byte(n >> 8), byte(n)}
+	case n < 1<<32:
+		return []byte{m | 26, byte(n >> 24), byte(n >> 16), byte(n >> 8), byte(n)}
+	}
+	return []byte{m | 27, byte(n >> 56), byte(n >> 48), byte(n >> 40), byte(n >> 32), byte(n >> 24), byte(n >> 16), byte(n >> 8), byte(n)}
+}
+
+func cborTag(n uint64, content []byte) []byte { return append(cborHead(6, n), content...) }
+
+func cborArr(items ...[]byte) []byte {
+	out := cborHead(4, uint64(len(items)))
+	for _, it := range items {
+		out = append(out, it...)
+	}
+	return out
+}
+
+func cborSimpleType(id uint64) []byte { return cborTag(137, cborHead(0, id)) }
+
+// handKey: a random key of one of a few simple key types, as (simple type id, encoded key).
+func handKey(r *hx.Rng, kind int) []byte {
+	switch kind {
+	case 0: // String (1)
+		n := r.Intn(4)
+		b := make([]byte, n)
+		for i := range b {
+			b[i] = byte('a' + r.Intn(4))
+		}
+		return append(cborHead(3, uint64(n)), b...)
+	case 1: // UInt8 (12)
+		return cborHead(0, uint64(r.Intn(256)))
+	case 2: // Int16 (6)
+		x := r.Intn(600) - 300
+		if x < 0 {
+			return cborHead(1, uint64(-1-x))
+		}
+		return cborHead(0, uint64(x))
+	case 3: // Bool (0)
+		if r.Chance(50) {
+			return []byte{0xf5}
+		}
+		return []byte{0xf4}
+	case 4: // Address (3)
+		b := make([]byte, 8)
+		b[7] = byte(r.Intn(4))
+		b[6] = byte(r.Intn(2))
+		return append(cborHead(2, 8), b...)
+	default: // Int (4): bignum
+		x := r.Intn(70000) - 35000
+		if x < 0 {
+			return cborTag(3, bigBytes(uint64(-1-x)))
+		}
+		return cborTag(2, bigBytes(uint64(x)))
+	}
+}
+
+func bigBytes(n uint64) []byte {
+	var b []byte
+	for n > 0 {
+		b = append([]byte{byte(n)}, b...)
+		n >>= 8
+	}
+	return append(cborHead(2, uint64(len(b))), b...)
+}
+
+var handKeyTypeIDs = []uint64{1, 12, 6, 0, 3, 4}
+
+// genHand emits one hand-built message: a dictionary {K: UInt8} (possibly wrapped in an array, an
+// optional or as the value of an outer one-entry dictionary) whose entries are strictly sorted by the
+// encoded key, have one adjacent pair out of order, or have one key twice in a row.
+func genHand(c *hx.Ctx, r *hx.Rng) {
+	kind := r.Intn(len(handKeyTypeIDs))
+	want := 2 + r.Intn(4)
+	if kind == 3 {
+		want = 2
+	}
+	seen := map[string]bool{}
+	var keys [][]byte
+	for tries := 0; len(keys) < want && tries < 100; tries++ {
+		k := handKey(r, kind)
+		if !seen[string(k)] {
+			seen[string(k)] = true
+			keys = append(keys, k)
+		}
+	}
+	if len(keys) < 2 {
+		return
+	}
+	// sort by encoded bytes
+	for i := 1; i < len(keys); i++ {
+		for j := i; j > 0 && bytes.Compare(keys[j-1], keys[j]) > 0; j-- {
+			keys[j-1], keys[j] = keys[j], keys[j-1]
+		}
+	}
+	what := []string{"sorted", "unsorted", "dup"}[r.Intn(3)]
+	i := r.Intn(len(keys) - 1)
+	switch what {
+	case "unsorted":
+		if r.Chance(50) {
+			keys[i], keys[i+1] = keys[i+1], keys[i]
+		} else { // move the last key to the front
+			keys = append([][]byte{keys[len(keys)-1]}, keys[:len(keys)-1]...)
+		}
+	case "dup":
+		keys = append(keys[:i+1], append([][]byte{keys[i]}, keys[i+1:]...)...)
+	}
+	var items [][]byte
+	for j, k := range keys {
+		items = append(items, k, cborHead(0, uint64(j)))
+	}
+	typ := cborTag(141, cborArr(cborSimpleType(handKeyTypeIDs[kind]), cborSimpleType(12)))
+	val := cborArr(items...)
+	switch r.Intn(4) {
+	case 1: // [{K: UInt8}]
+		typ, val = cborTag(139, typ), cborArr(val)
+	case 2: // {K: UInt8}?
+		typ = cborTag(138, typ)
+	case 3: // {Bool: {K: UInt8}}
+		typ, val = cborTag(141, cborArr(cborSimpleType(0), typ)), cborArr([]byte{0xf5}, val)
+	}
+	c.Emit("ccf", "hand", what, hx.Hex(cborTag(130, cborArr(typ, val))))
 }
 
 func encodeGuardCCF(f func() ([]byte, error)) (b []byte, err error, panicked bool) {
@@ -214,11 +362,26 @@ func execCCF(op []string) (res string) {
 		}
 		return "ok:" + cval.ValueSx(dec)
 	case "mutb":
-		_, err := ccf.Decode(nil, hx.UnHex(op[2]))
+		v, err := ccf.Decode(nil, hx.UnHex(op[2]))
 		if err != nil {
 			return "err"
 		}
-		return "ok"
+		return "ok:" + safeValueSx(v)
+	case "hand":
+		b := hx.UnHex(op[3])
+		res := "d:"
+		if v, err := ccf.Decode(nil, b); err != nil {
+			res += "err"
+		} else {
+			res += "ok:" + safeValueSx(v)
+		}
+		res += ";s:"
+		if v, err := ccfStrictDec.Decode(nil, b); err != nil {
+			res += "err"
+		} else {
+			res += "ok:" + safeValueSx(v)
+		}
+		return res
 	}
 	return "bad-op"
 }
